@@ -464,6 +464,17 @@ def gzip(compress_level=5, mime_types=['text/html', 'text/plain'],
 
             return
 
+    # No gzip entry applied and identity was not listed with a non-zero qvalue.
+    # RFC 7231, section 5.3.4: a representation without any content-coding
+    # stays acceptable unless the field excludes it, either by stating
+    # "identity;q=0" or by "*;q=0" without a more specific identity entry.
+    for coding in acceptable:
+        if coding.value in ('identity', '*') and coding.qvalue == 0:
+            if debug:
+                cherrypy.log('No acceptable encoding found.', context='GZIP')
+            cherrypy.HTTPError(406, 'identity, gzip').set_response()
+            return
+
     if debug:
-        cherrypy.log('No acceptable encoding found.', context='GZIP')
-    cherrypy.HTTPError(406, 'identity, gzip').set_response()
+        cherrypy.log('No gzip in Accept-Encoding, identity not excluded',
+                     context='TOOLS.GZIP')
